@@ -274,6 +274,8 @@ def splitTierEntries(
     newEntries = []
     for start, end, label in sourceTier.entries:
         labelList = label.split()
+        if len(labelList) == 0:
+            continue
         intervalLength = (end - start) / float(len(labelList))
 
         newSubEntries = [
